@@ -125,6 +125,21 @@ def approxRel (a b rel : Float) : Bool :=
   else if !a.isFinite || !b.isFinite then false
   else decide (absF (a - b) ≤ rel * fmax (absF a) (absF b))
 
+/-- a NaN among the float tokens of an output group -/
+def groupHasNaN (g : List String) : Bool :=
+  g.any fun t => match parseF64? t with
+    | some x => x.isNaN
+    | none => match parseF32? t with
+      | some x => x.toFloat.isNaN
+      | none => false
+
+/-- valid (finite, positive) data: the reported count / mean / standard error are numbers -/
+def statsAreNumbers (valid : Bool) (impl : List (List String)) : List String :=
+  if !valid then [] else
+  match impl with
+  | _ :: _ :: _ :: st :: _ => if st.head? == some "ok" && groupHasNaN st then ["reported-statistics-contain-NaN"] else []
+  | _ => []
+
 /-- compare two intervals of the implementation bound-wise through `f` with a relative tolerance -/
 def relateIntervals {F : Type} [FloatLike F] (what : String) (rel : Float)
     (expect : Interval F → Option (Interval Float)) (src dst : List String) : List String :=
@@ -193,7 +208,8 @@ def geoOp {F : Type} [FloatLike F] [Widen F Float] (args : List String) : Option
           relateIntervals (F := F) "geo=exp(arith(ln))" (32.0 * FloatLike.u F)
             (fun i => some ((i.map FloatLike.toF64).map (fun b => FloatLike.toF64 (Scalar.exp (Widen.down b : F))))) ar g1
         | _ => []
-      { model := joinBar [o, o, o, stT, aT, [am]], prop := cs } }
+      let validData := xs.all fun x => let xv := FloatLike.toF64 x; xv.isFinite && xv > 0.0
+      { model := joinBar [o, o, o, stT, aT, [am]], prop := cs ++ statsAreNumbers validData impl } }
 
 /-- `harm F conf xs => ci | from_iter+ci_mean | incremental | ok count mean sem | Arithmetic::ci(conf.flipped, 1/xs) | arith mean` -/
 def harmOp {F : Type} [FloatLike F] [Widen F Float] (args : List String) : Option OpEval := do
@@ -254,7 +270,8 @@ def harmOp {F : Type} [FloatLike F] [Widen F Float] (args : List String) : Optio
               | .lower hi => some (.upper (rb hi))
               | .upper lo => some (.lower (rb lo))) ar h1
         | _ => []
-      { model := joinBar [o, o, o, stT, aT, [am]], prop := cs } }
+      let validData := xs.all fun x => let xv := FloatLike.toF64 x; xv.isFinite && xv > 0.0
+      { model := joinBar [o, o, o, stT, aT, [am]], prop := cs ++ statsAreNumbers validData impl } }
 
 /-- `means F xs => arithmetic geometric harmonic` with the oracle `H ≤ G ≤ A` -/
 def meansOp {F : Type} [FloatLike F] [Widen F Float] (args : List String) : Option OpEval := do
@@ -517,10 +534,13 @@ def unpairedOp {F : Type} [FloatLike F] [Widen F Float] (args : List String) : O
       let (cs, sk) := oracleUnpaired (F := F) conf (xs.map FloatLike.toF64) (ys.map FloatLike.toF64) c dof impl
       -- exchanging the samples negates and mirrors the interval, exactly
       let csw := match impl with
-        | a :: _ :: _ :: _ :: _ :: _ :: _ :: [s] =>
-          if (toksEq 0 (mirrorToks a) s).1 then [] else ["swap-does-not-mirror"]
+        | a :: _ :: _ :: _ :: _ :: _ :: _ :: s :: [acc] =>
+          (if (toksEq 0 (mirrorToks a) s).1 then [] else ["swap-does-not-mirror"]) ++
+          -- fed half through the wrappers and half through the mutable accessors: the same counts and interval
+          (if acc == [toString xs.length, toString ys.length] ++ a then [] else ["mutable-accessors-feed-a-different-state"])
         | _ => ["malformed"]
-      { model := joinBar [o, o, o, o, o, o, o, tokOutcome (tokInterval tol) sw], prop := cs ++ csw, skipped := sk } }
+      let accT : List Tok := [.s (toString xs.length), .s (toString ys.length)] ++ o
+      { model := joinBar [o, o, o, o, o, o, o, tokOutcome (tokInterval tol) sw, accT], prop := cs ++ csw, skipped := sk } }
 
 /-- `paired_seq F preA preB xs ys => extend outcome | count` on a state that already holds pairs -/
 def pairedSeqOp {F : Type} [FloatLike F] [Widen F Float] (args : List String) : Option OpEval := do
